@@ -146,7 +146,8 @@ func genLeaf(cfg termCfg) *rapid.Generator[*term] {
 		case tNode:
 			tm.Names = rapid.SliceOfN(rapid.SampledFrom([]string{"", "n1", "n2"}), 0, 2).Draw(t, "nodes")
 		case tInvolved:
-			tm.Inv = [3]string{rapid.SampledFrom([]string{"Pod", "Service"}).Draw(t, "ik"), rapid.SampledFrom(uniNamespaces[:2]).Draw(t, "ins"), rapid.SampledFrom(uniNames[:2]).Draw(t, "iname")}
+			// kind "": what InvolvedObjectFilter derives from an object without TypeMeta
+			tm.Inv = [3]string{rapid.SampledFrom([]string{"Pod", "Service", ""}).Draw(t, "ik"), rapid.SampledFrom(uniNamespaces[:2]).Draw(t, "ins"), rapid.SampledFrom(uniNames[:2]).Draw(t, "iname")}
 		case tWorkloadPods:
 			tm.WKind = rapid.SampledFrom(workloadKinds).Draw(t, "wkind")
 			tm.Sources = genWorkloads(tm.WKind, 3).Draw(t, "sources")
